@@ -19,6 +19,7 @@ pub struct Profile {
     // step weights
     pub w_get: u32,
     pub w_get0: u32,
+    pub w_getnort: u32,
     pub w_poll: u32,
     pub w_pollwoken: u32,
     pub w_cancel: u32,
@@ -47,6 +48,7 @@ impl Profile {
             pause_pct: 25,
             w_get: 10,
             w_get0: 5,
+            w_getnort: 1,
             w_poll: 4,
             w_pollwoken: 8,
             w_cancel: 4,
@@ -173,6 +175,7 @@ pub fn step(p: &Profile) -> BoxedStrategy<Step> {
     };
     add(p.w_get, pa.clone().prop_map(|pause| Step::StartGet { zero_wait: false, pause }).boxed());
     add(p.w_get0, pa.clone().prop_map(|pause| Step::StartGet { zero_wait: true, pause }).boxed());
+    add(p.w_getnort, any::<bool>().prop_map(|zero_wait| Step::GetNoRuntime { zero_wait }).boxed());
     add(p.w_poll, (any::<u8>(), pa.clone()).prop_map(|(g, pause)| Step::Poll { g, pause }).boxed());
     add(p.w_pollwoken, pa.clone().prop_map(|pause| Step::PollWoken { pause }).boxed());
     add(p.w_cancel, (any::<u8>(), pa.clone()).prop_map(|(g, pause)| Step::Cancel { g, pause }).boxed());
